@@ -52,6 +52,7 @@ type Result struct {
 	Hist       []string // histogram buckets this case falls in
 	Direct     *Direct
 	Skip       bool // input could not be executed (counts in hist "skipped")
+	Traces     int  // number of implementation event traces this case hands to the model (T3)
 }
 
 type caseRec struct {
@@ -191,6 +192,7 @@ func Main[In any](cfg Config, gen func(f Flags, r *vrand.R, emit func(In)), exec
 	}
 	cw := bufio.NewWriter(cj)
 	hist := map[string]int{}
+	traces := 0
 	distinct := map[string]bool{}
 	shards := []string{}
 	var shardTerms []string
@@ -225,6 +227,7 @@ func Main[In any](cfg Config, gen func(f Flags, r *vrand.R, emit func(In)), exec
 		for _, h := range res.Hist {
 			hist[h]++
 		}
+		traces += res.Traces
 		inJS, _ := json.Marshal(items[i].in)
 		if res.Direct != nil {
 			directs = append(directs, caseRec{I: -1, Origin: items[i].origin, Class: res.Class, Input: inJS, Direct: res.Direct})
@@ -289,6 +292,7 @@ func Main[In any](cfg Config, gen func(f Flags, r *vrand.R, emit func(In)), exec
 		"rule":                cfg.Rule,
 		"samples":             samples,
 		"hist":                hist,
+		"traces_validated":    traces,
 		"direct":              directs,
 		"impl_wall_s":         time.Since(t0).Seconds(),
 	}
